@@ -457,6 +457,18 @@ theorem sentinel_assign_pinned : sentinelAssign =
     [("Username", "o.Sentinel.Username"), ("Password", "o.Sentinel.Password"), ("ClientName", "o.Sentinel.ClientName"),
      ("Dialer", "o.Sentinel.Dialer"), ("TLSConfig", "o.Sentinel.TLSConfig"), ("SelectDB", "0")] := rfl
 
+/-- **sentinel_opt_uses_sentinel_credentials.** Whatever the data-node options are (user name,
+    password, client name, database), the options of a sentinel connection carry exactly the
+    sentinel credentials and client name — also when they are empty — and database 0; so by
+    `plan_authenticates_configured_user` / `plan_contains_required_in_order` the sentinel connection
+    authenticates as Sentinel.Username (or sends no AUTH at all) and never as the data-node user. -/
+theorem sentinel_opt_uses_sentinel_credentials (o : Opt) (su sp sn : String) :
+    (sentinelOpt o su sp sn).username = su ∧ (sentinelOpt o su sp sn).password = sp ∧
+    (sentinelOpt o su sp sn).clientName = sn ∧ (sentinelOpt o su sp sn).selectDB = 0 ∧
+    (o.credFn = none → creds (sentinelOpt o su sp sn) = some (su, sp)) := by
+  refine ⟨rfl, rfl, rfl, rfl, fun h => ?_⟩
+  simp [creds, sentinelOpt, h]
+
 theorem sentinel_never_selects (o : Opt) (su sp sn : String) (u p : String) :
     evalAtom (sentinelOpt o su sp sn) u p .selDB = false := rfl
 
